@@ -1184,7 +1184,7 @@ class World(Engine):
 
     def budget(self, tier):
         if tier == 'quick':
-            return {'wall_s': 55, 'max_examples': 12}
+            return {'wall_s': 50, 'max_examples': 12}
         return {'wall_s': 840, 'max_examples': 25}
 
     # ------------------------------------------------------------ strategy
